@@ -96,6 +96,17 @@ class Gen:
             return [self.value(ty[:-1]) for _ in range(r.choice([0, 1, 2, 3]))]
         if ty.startswith("const "):
             return eval(ty[6:], {"__builtins__": {}}, {})
+        if ty.startswith("dict{"):
+            d = {}
+            for kv in _split_top(ty[5:-1], ";"):
+                if kv:
+                    k, v = kv.split(":", 1)
+                    d[k.strip()] = self.value(v.strip(), k.strip())
+            return d
+        if ty.startswith("tuple("):
+            return tuple(self.value(t) for t in _split_top(ty[6:-1], ";") if t)
+        if ty == "bytes":
+            return self.value("bstr")
         raise CannotReplay(f"type {ty} has no native generator")
 
 
@@ -130,7 +141,7 @@ def falsify_typed(unit: str, prop: Optional[str], tries: int = 400) -> Dict[str,
     rng = random.Random(int(os.environ.get("VERIF_SEED", "0") or 0) * 7919 + 17)
     from .rules import clause_mentions_traces
 
-    clauses = [cl for cl in fc.ensures if (not prop or not cl.props or prop in cl.props) and not clause_mentions_traces(cl) and "local(" not in cl.text]
+    clauses = [cl for cl in list(fc.ensures) + list(fc.oracle_ensures) if (not prop or not cl.props or prop in cl.props) and not clause_mentions_traces(cl) and "local(" not in cl.text]
     if not clauses:
         raise CannotReplay("no postcondition to use as oracle")
     B = Builder({})
